@@ -3,6 +3,8 @@
 -/
 import NiVerif.Model.Wfm
 import NiVerif.Proofs.WfmLemmas
+import NiVerif.Proofs.Bits
+import NiVerif.Gen.Geometry
 
 namespace Props.C01
 open Model.Wfm Proofs.Wfm
@@ -587,5 +589,125 @@ example : ((ctorNew .analog 4 true (some 2) none (some 1) (some 4) 0 [] none 0).
     (appendArray w ⟨4, 1, [[7], [8]], 1, true⟩ none true).bind fun w =>
     (loadData w ⟨4, 1, [[1], [2], [3], [4]], 1, false⟩ false (some 1) (some 2)).map (·.view))
     = .ok [[2], [3]] := by rfl
+
+/-! ### the tie by proof for the argument checks: `Gen/Geometry.lean` (translator tier T5) against the model's geometry functions -/
+
+theorem argToUintOpt_some (x : Option Int) (d : Int) : Py.argToUintOpt x (some d) = argUint x d := by
+  cases x <;> simp [Py.argToUintOpt, Py.argToUint, argUint]
+
+/-- finish a goal that is a tree of `if`s over linear conditions on both sides: every leaf is `rfl` or contradictory -/
+macro "geom_finish" : tactic =>
+  `(tactic| ((repeat' split) <;> first | rfl | (simp only [Except.map]; done) | (exfalso; omega) | (simp_all [Except.map] <;> omega)))
+
+/-- `get_raw_data` / `get_data` window check (all three classes): the generated check is the model's `window` -/
+theorem gen_window_eq_model (len : Nat) (s n : Option Int) :
+    (Gen.Geometry.numeric_get_raw_data_window s n len).map (fun p => (p.1.toNat, p.2.toNat)) = window len s n
+    ∧ Gen.Geometry.spectrum_get_data_window s n len = Gen.Geometry.numeric_get_raw_data_window s n len
+    ∧ Gen.Geometry.digital_get_data_window s n len = Gen.Geometry.numeric_get_raw_data_window s n len := by
+  refine ⟨?_, rfl, rfl⟩
+  unfold Gen.Geometry.numeric_get_raw_data_window window
+  simp only [argToUintOpt_some, argUint, bind, pure, Except.pure, throw, throwThe, MonadExceptOf.throw]
+  cases s <;> cases n <;>
+    simp only [Option.getD, Proofs.bind_ite, Proofs.bind_ok, Proofs.bind_error] <;> geom_finish
+
+/-- what an accepted window is: inside the samples -/
+theorem gen_window_inside (len : Int) (s n : Option Int) (p : Int × Int)
+    (h : Gen.Geometry.numeric_get_raw_data_window s n len = .ok p) : 0 ≤ p.1 ∧ 0 ≤ p.2 ∧ p.1 + p.2 ≤ len := by
+  unfold Gen.Geometry.numeric_get_raw_data_window at h
+  simp only [argToUintOpt_some, argUint] at h
+  cases s <;> cases n <;> simp only [Option.getD, Proofs.bind_ite, Proofs.bind_ok, Proofs.bind_error] at h <;> (repeat' split at h) <;>
+    (cases h <;> dsimp only <;> omega)
+
+/-- `_init_with_provided_array` (numeric classes and Spectrum): capacity must equal the array length, then the window check -/
+theorem gen_provided_geometry_eq_model (len : Nat) (s n cap : Option Int) :
+    (Gen.Geometry.numeric_provided_geometry len s n cap).map (fun g => (g.1.toNat, g.2.1.toNat))
+      = (checkCap cap len).bind (fun _ => window len s n)
+    ∧ Gen.Geometry.spectrum_provided_geometry len s n cap = Gen.Geometry.numeric_provided_geometry len s n cap := by
+  refine ⟨?_, rfl⟩
+  unfold Gen.Geometry.numeric_provided_geometry checkCap window
+  simp only [argToUintOpt_some, argUint, bind, pure, Except.pure, throw, throwThe, MonadExceptOf.throw]
+  cases s <;> cases n <;> cases cap <;>
+    simp only [Option.getD, Proofs.bind_ite, Proofs.bind_ok, Proofs.bind_error] <;> geom_finish
+
+/-- a validated geometry satisfies the C01 invariant: 0 ≤ start, start + count ≤ capacity = len(array) -/
+theorem gen_provided_geometry_invariant (len : Int) (s n cap : Option Int) (g : Int × Int × Int)
+    (h : Gen.Geometry.numeric_provided_geometry len s n cap = .ok g) :
+    0 ≤ g.1 ∧ 0 ≤ g.2.1 ∧ g.1 + g.2.1 ≤ g.2.2 ∧ g.2.2 = len := by
+  unfold Gen.Geometry.numeric_provided_geometry at h
+  simp only [argToUintOpt_some, argUint] at h
+  cases s <;> cases n <;> cases cap <;> simp only [Option.getD, Proofs.bind_ite, Proofs.bind_ok, Proofs.bind_error] at h <;>
+    (repeat' split at h) <;> (cases h <;> dsimp only <;> omega)
+
+/-- `_init_with_new_array`: three conversions (start, count, capacity defaulting to count), the dtype check, then the two range checks -
+    exactly the prefix of the model's `ctorNew` -/
+theorem gen_new_geometry_eq_model (count start cap : Option Int) (dtypeOk : Bool) :
+    (Gen.Geometry.numeric_new_geometry count start cap dtypeOk).map (fun g => (g.1.toNat, g.2.1.toNat, g.2.2.toNat))
+      = (newGeom count start cap).bind (fun g =>
+          if ¬ dtypeOk then .error .TypeError
+          else if g.1 > g.2.2 then .error .StartIndexTooLargeError
+          else if g.1 + g.2.1 > g.2.2 then .error .StartIndexOrSampleCountTooLargeError
+          else .ok g)
+    ∧ Gen.Geometry.spectrum_new_geometry count start cap dtypeOk = Gen.Geometry.numeric_new_geometry count start cap dtypeOk := by
+  refine ⟨?_, rfl⟩
+  unfold Gen.Geometry.numeric_new_geometry newGeom
+  simp only [argToUintOpt_some, argUint, bind, pure, Except.pure]
+  cases count <;> cases start <;> cases cap <;> cases dtypeOk <;>
+    simp only [Option.getD, Bool.false_eq_true, not_false_eq_true, not_true_eq_false, if_true, if_false,
+      Proofs.bind_ite, Proofs.bind_ok, Proofs.bind_error] <;> geom_finish
+
+theorem gen_new_geometry_invariant (count start cap : Option Int) (ok : Bool) (g : Int × Int × Int)
+    (h : Gen.Geometry.numeric_new_geometry count start cap ok = .ok g) :
+    0 ≤ g.1 ∧ 0 ≤ g.2.1 ∧ g.1 + g.2.1 ≤ g.2.2 := by
+  unfold Gen.Geometry.numeric_new_geometry at h
+  simp only [argToUintOpt_some, argUint] at h
+  cases count <;> cases start <;> cases cap <;> simp only [Option.getD, Proofs.bind_ite, Proofs.bind_ok, Proofs.bind_error] at h <;>
+    (repeat' split at h) <;> (cases h <;> dsimp only <;> omega)
+
+/-- the `sample_count` setter (numeric and digital; Spectrum has none): the model's `setCount` accepts exactly what the generated
+    check accepts, with the same error otherwise, and stores the validated value -/
+theorem gen_set_sample_count_eq_model (w : W) (value : Option Int) (hk : w.kind ≠ .spectrum) :
+    setCount w value
+      = (Gen.Geometry.numeric_set_sample_count value w.start w.capacity (decide (w.timing.mode = .irregular)) w.timing.stamps.length).map
+          (fun v => { w with count := v.toNat })
+    ∧ Gen.Geometry.digital_set_sample_count = Gen.Geometry.numeric_set_sample_count := by
+  refine ⟨?_, rfl⟩
+  unfold setCount Gen.Geometry.numeric_set_sample_count
+  have ht : w.hasTiming = true := by unfold W.hasTiming; cases hkk : w.kind <;> simp_all
+  simp only [hk, ht, if_false, bind, pure, Except.pure, throw, throwThe, MonadExceptOf.throw, argUint, Py.argToUintOpt, Py.argToUint,
+    true_and, decide_eq_true_eq]
+  cases value with
+  | none => simp [Except.map, Except.bind]
+  | some v =>
+    simp only [Option.isNone_some, Bool.false_eq_true, if_false, Option.getD, Proofs.bind_ite, Proofs.bind_ok, Proofs.bind_error]
+    all_goals geom_finish
+
+/-- the `capacity` setter (all three classes): refused below start + count; equal capacity is a no-op; otherwise the resize -/
+theorem gen_set_capacity_eq_model (w : W) (value : Option Int) :
+    setCapacity w value
+      = (Gen.Geometry.numeric_set_capacity value w.start w.count w.capacity).bind (fun v =>
+          if v.toNat = w.capacity then .ok w
+          else if ¬ w.resizable then .error .ValueError
+          else .ok { w with buf := (w.buf ++ List.replicate (v.toNat - w.capacity) (zeroRow w.ncols 0)).take v.toNat })
+    ∧ Gen.Geometry.spectrum_set_capacity = Gen.Geometry.numeric_set_capacity
+    ∧ Gen.Geometry.digital_set_capacity = Gen.Geometry.numeric_set_capacity := by
+  refine ⟨?_, rfl, rfl⟩
+  unfold setCapacity Gen.Geometry.numeric_set_capacity
+  simp only [bind, pure, Except.pure, throw, throwThe, MonadExceptOf.throw, argUint, Py.argToUintOpt, Py.argToUint]
+  cases value with
+  | none => simp [Except.bind]
+  | some v =>
+    simp only [Option.isNone_some, Bool.false_eq_true, if_false, Option.getD, Proofs.bind_ite, Proofs.bind_ok, Proofs.bind_error]
+    all_goals geom_finish
+
+/-- an accepted capacity never cuts into the live window -/
+theorem gen_set_capacity_keeps_window (value : Option Int) (start count cap v : Int)
+    (h : Gen.Geometry.numeric_set_capacity value start count cap = .ok v) : start + count ≤ v := by
+  unfold Gen.Geometry.numeric_set_capacity at h
+  cases value with
+  | none => simp [Py.argToUintOpt, Except.bind] at h
+  | some x =>
+    simp only [Py.argToUintOpt, Py.argToUint, Proofs.bind_ite, Proofs.bind_ok, Proofs.bind_error] at h
+    (repeat' split at h) <;> (cases h <;> omega)
+
 
 end Props.C01
